@@ -84,6 +84,16 @@ type Instance struct {
 	PadHist    [16]int
 	BatchHist  []int // by min(k,63)
 	ReadFaults int
+	// F8: MOVED_TO halves held back so that halves of renames issued by
+	// different tasks interleave, as inotify(7) allows on SMP
+	held      []heldRec
+	Reordered int
+}
+
+type heldRec struct {
+	r     Record
+	wait  int
+	owner int
 }
 
 // Binding returns what wd is bound to.
@@ -127,12 +137,14 @@ func (c *Counter) Get(name string) int {
 
 // Sim is the per-run inotify simulation state.
 type Sim struct {
-	Inst     []*Instance
-	Dirty    bool
-	Shadow   *Shadow
-	Cfg      Config
-	Faults   Counter // fired counts by kind
-	InitLeak int
+	Inst   []*Instance
+	Dirty  bool
+	Shadow *Shadow
+	Cfg    Config
+	Faults Counter // fired counts by kind
+	// WorldTask is the task that performed the filesystem step being drained (set by the harness)
+	WorldTask int
+	InitLeak  int
 }
 
 // Config are the per-run knobs.
@@ -144,6 +156,7 @@ type Config struct {
 	FaultInit   int  // 0 off; else 1-in-N inits fail
 	FaultRead   int  // 0 off; else 1-in-N reads return a transient error
 	MaxAddFault int  // cap of injected add faults per run
+	Reorder     int  // F8: 0 off; else a MOVED_TO may be delayed past up to this many rename records of other tasks
 }
 
 var sim *Sim
@@ -345,7 +358,62 @@ func (s *Sim) Drain(step int) {
 			continue
 		}
 		in := in
-		drainFD(in.FD, step, func(r Record) { in.enqueue(r) })
+		if s.Cfg.Reorder > 0 {
+			in.releaseOwner(s.WorldTask)
+		}
+		drainFD(in.FD, step, func(r Record) { in.enqueueF8(r, s) })
+	}
+}
+
+// releaseOwner puts back the halves held for a task before that task's next
+// operation is recorded: its own later events cannot overtake them.
+//
+//go:norace
+func (in *Instance) releaseOwner(task int) {
+	var keep []heldRec
+	for _, h := range in.held {
+		if h.owner == task {
+			in.enqueue(h.r)
+		} else {
+			keep = append(keep, h)
+		}
+	}
+	in.held = keep
+}
+
+// Flush releases everything that is held back.
+//
+//go:norace
+func (in *Instance) Flush() {
+	for _, h := range in.held {
+		in.enqueue(h.r)
+	}
+	in.held = nil
+}
+
+//go:norace
+func (in *Instance) enqueueF8(r Record, s *Sim) {
+	if s.Cfg.Reorder > 0 && r.Mask&unix.IN_MOVED_TO != 0 && r.Cookie != 0 {
+		if d := ssim.S().Ch.Choose(s.Cfg.Reorder+1, "reorder"); d > 0 {
+			in.held = append(in.held, heldRec{r: r, wait: d, owner: s.WorldTask})
+			return
+		}
+	}
+	in.enqueue(r)
+	if len(in.held) > 0 && r.Mask&(unix.IN_MOVED_FROM|unix.IN_MOVED_TO) != 0 {
+		var keep []heldRec
+		for _, h := range in.held {
+			if h.owner != s.WorldTask {
+				h.wait--
+				if h.wait <= 0 {
+					in.enqueue(h.r)
+					in.Reordered++
+					continue
+				}
+			}
+			keep = append(keep, h)
+		}
+		in.held = keep
 	}
 }
 
@@ -552,7 +620,7 @@ func (w *readReady) Ready() bool {
 	if in.Closed {
 		return in.Pollable || !w.beforeClose
 	}
-	return len(in.Queue) > 0
+	return len(in.Queue) > 0 || len(in.held) > 0
 }
 
 // Read hands k whole records to the caller, k decided by the chooser.
@@ -567,6 +635,9 @@ func (f *File) Read(b []byte) (int, error) {
 	ssim.WaitForHook("inotify.read", uintptr(in.Ord+1), w, func(r *ssim.Req) {
 		if in.Closed {
 			return
+		}
+		if len(in.Queue) == 0 {
+			in.Flush()
 		}
 		if sim.Cfg.FaultRead > 0 && ssim.S().Ch.Choose(sim.Cfg.FaultRead, "fault-read") == 1 {
 			fault = true
